@@ -20,6 +20,23 @@ RB = "vecdb::traits::writable::WritableVec::rollback_before"
 SCF = "vecdb::base::rollback::<impl vecdb::base::read_write::ReadWriteBaseVec<I, T>>::save_change_file"
 
 
+def no_save_after_refusal(ctx, chk, rid):
+    """shared by C16 and C13: in rollback_before, save_rollback_state is not reachable from the StampMismatch refusal
+    nor from the failure edge of rollback()."""
+    O = ctx.O
+    F = O.body(RB)
+    mism = [b for b in F.reachable() for st in F.blocks[b]["stmts"]
+            if st[0] == "assign" and st[2]["k"] == "agg" and st[2].get("variant") == "StampMismatch"]
+    srs = O.need_sites(F, M(r"vecdb::traits::writable::WritableVec::save_rollback_state"), 1)
+    bad = O.after_failure(ctx.P.bodies[RB], M(r"vecdb::traits::writable::WritableVec::rollback"),
+                          M(r"vecdb::traits::writable::WritableVec::save_rollback_state"))
+    after_mismatch = [s for s in srs if any(O.can_reach(F, m, [s]) for m in mism)]
+    chk.oblige("%s rollback_before: save_rollback_state is not reachable after a refusal (StampMismatch) or a failed "
+               "rollback()" % rid, not bad and not after_mismatch, key="%s|rollback_before|save-after-failure" % rid,
+               msg="a refused rollback_before must not snapshot uncommitted edits into the previous-state buffers (the "
+                   "next commit would record them and a later rollback would resurrect them)")
+
+
 def run(ctx, chk):
     O, P = ctx.O, ctx.P
     # ATOM instances
@@ -60,15 +77,7 @@ def run(ctx, chk):
                          M(r"vecdb::traits::writable::WritableVec::rollback"))
     chk.oblige("B16.1 save_rollback_state runs only after the loop (no rollback() after it)", not late,
                key="B16.1|save-after-loop", msg="rollback state is saved once, after the last applied record")
-    # B16.1c a refused / failed step does not commit anything: save_rollback_state is not reachable from the
-    # StampMismatch refusal nor from the failure edge of rollback()
-    bad = O.after_failure(ctx.P.bodies[RB], M(r"vecdb::traits::writable::WritableVec::rollback"),
-                          M(r"vecdb::traits::writable::WritableVec::save_rollback_state"))
-    after_mismatch = [s for s in srs if any(O.can_reach(F, m, [s]) for m in mism)]
-    chk.oblige("B16.1c rollback_before: save_rollback_state is not reachable after a refusal (StampMismatch) or a failed "
-               "rollback()", not bad and not after_mismatch, key="B16.1c|rollback_before|save-after-failure",
-               msg="a refused rollback_before must not snapshot uncommitted edits into the previous-state buffers (the "
-                   "next commit would record them and a later rollback would resurrect them)")
+    no_save_after_refusal(ctx, chk, "B16.1c")
     # B16.2
     S = O.body(SCF)
     wr = O.need_sites(S, M(r"std::fs::write"), 1)
